@@ -35,9 +35,10 @@ def gen(seed, tier):
     for op in OPS:
         for a in small:
             for b in small:
-                for fa, fb in (("U", "C"), ("C", "U"), ("U", "U")):
-                    k += 1
-                    if tier == "quick" and k % 3:
+                k += 1
+                for j, (fa, fb) in enumerate((("U", "C"), ("C", "U"), ("U", "U"))):
+                    # quick: one of the three format combinations per operand pair, in rotation
+                    if tier == "quick" and (k + k // 64) % 3 != j:
                         continue
                     yield {"prop": PROP, "op": op, "d": 0, "dflt": 0, "a": a, "b": b, "kind": "fmt",
                            "fa": fa, "fb": fb, "sa": 3, "sb": 3}
@@ -237,6 +238,13 @@ def signature(case, verdict, failed):
         return f"{case['op']}:{'/'.join(sorted(f.split(':')[0] for f in failed))}"
     if case["op"] == "tuple":
         return f"tuple:{case['opk']}:{case['ka']}-{case['kb']}:{'/'.join(sorted(f.split(':')[0] for f in failed))}"
+    if case["op"] == "sub" and case.get("kind") == "fmt" and case.get("fa") == "U" and failed == ["spec"]:
+        # the lazy result of `a - b` is iterated in format C: a's default-valued coordinates vanish
+        vals = [v for _, v in case["a"]]
+        kept = [r for r in verdict.get("model", []) if r[1] >= 0 and vals[r[1]] != case["dflt"]]
+        if case.get("impl") == kept:
+            return "sub:uncompressed-minuend:default-coordinates-dropped"
+        return "sub:uncompressed-minuend:spec"
     if "rank_lists_unchanged" in failed and case["op"] in ("or", "xor") and case["kind"] == "owned":
         return f"{case['op']}:rank-list-growth"
     return f"{case['op']}:{'/'.join(sorted(failed))}"
